@@ -555,11 +555,22 @@ T2_CACHE_DIAG = {"cache_used", "cache_hits", "cache_misses", "t2.cache_evictions
 T2_PAR_DIAG = {"t2.task_count", "t2.parallel_workers", "t2.partition_count", "task_count", "parallel_workers", "partition_count"}
 
 
+# episode ids are not always strings: stores hand out integers too.  Under the "int" id style the two bit-identical
+# vectors (a, d) get ids whose numeric order (9 < 10) is the opposite of their string order ("10" < "9"), so any two
+# layers that break an exact score tie differently (raw id vs str(id)) disagree exactly where k cuts through the tie
+INT_IDS = {"a": 9, "d": 10, "b": 100, "c": 11, "e": 8, "f": 12, "g": 7, "h": 13}
+_ID_STYLE = {"v": None}
+
+
 def _t2_episode(eid: str):
     spec = T2_EPISODES[eid]
+    xid = INT_IDS[eid] if _ID_STYLE["v"] == "int" else eid
     if spec["days_ago"] is None:
-        return W._ep(eid, spec["owner"], spec["text"], 0, spec["cluster"], spec["importance"], ts=None)
-    return W._ep(eid, spec["owner"], spec["text"], spec["days_ago"], spec["cluster"], spec["importance"])
+        ep = W._ep(eid, spec["owner"], spec["text"], 0, spec["cluster"], spec["importance"], ts=None)
+    else:
+        ep = W._ep(eid, spec["owner"], spec["text"], spec["days_ago"], spec["cluster"], spec["importance"])
+    ep["id"] = xid
+    return ep
 
 
 def _t2_index(mem: Sequence[str]):
@@ -631,6 +642,7 @@ def _t2_state(mem):
 
 def _t2_exec(case, order):
     W.reset_globals()
+    _ID_STYLE["v"] = case.get("ids")
     state = _t2_state(case["mem"])
     t1 = types.SimpleNamespace(graph_deltas=[], metrics={})
     scope = case.get("scope", "any")
@@ -710,13 +722,14 @@ def _t2_tag(case):
     hist = _t2_hist(case)
     return "episodes=%r tiers=%r k=%d clusters_top_m=%d workers=%d query=%r%s%s" % (
         list(case["mem"]), list(case["tiers"]), case["k"], case["m"], case["w"], case["text"],
-        "" if case.get("scope", "any") == "any" else " owner_scope=%s" % case["scope"],
+        ("" if case.get("scope", "any") == "any" else " owner_scope=%s" % case["scope"]) + (
+            "" if not case.get("ids") else " ids=%s %r" % (case["ids"], {e: INT_IDS[e] for e in case["mem"]})),
         "" if not hist else " then-on-the-same-index=%r (contents at the judged query: %r)" % (hist, _t2_contents(case)))
 
 
 def _t2_state_key(case, order):
     return ("t2", tuple(case["mem"]), tuple(case["tiers"]), case["k"], case["m"], case["w"], case.get("scope"),
-            tuple(_t2_hist(case)), case["text"], order)
+            tuple(_t2_hist(case)), case["text"], case.get("ids"), order)
 
 
 def _t2_attribute(case, order, kind) -> str:
@@ -834,6 +847,16 @@ def t2_units(thorough: bool, seed: int):
                     for pre_text, text in (("pear cider", T2_TEXT), (T2_TEXT, "pear cider")):
                         units.append({"kind": "t2", "mem": list(mem), "tiers": tiers, "k": k, "m": 1, "w": w, "text": text,
                                       "pre_text": pre_text})
+    # id-style leg: integer ids, an exact cosine tie (a, d) that k cuts through, the tied episodes in different shards
+    for r in ((3, 4) if thorough else (3,)):
+        for mem in itertools.permutations(["a", "d", "b", "c"], r):
+            if "a" not in mem or "d" not in mem:
+                continue
+            for tiers in (["exact_semantic"], ["archive"], ["exact_semantic", "archive"]):
+                for k in (1, 2):
+                    for w in ((2, 3, 4) if thorough else (3, 4)):
+                        units.append({"kind": "t2", "mem": list(mem), "tiers": tiers, "k": k, "m": 3, "w": w, "text": "apple pie",
+                                      "ids": "int"})
     units.extend(t2_history_units(thorough))
     return units
 
